@@ -225,5 +225,136 @@ theorem CInv.cnCore_ccw {s : St} (hc : CInv s) (e0 : Nat) (p : Pt) (d : Nat) (b_
     intro hfx
     grind (splits := 40)
 
+set_option maxHeartbeats 4000000 in
+/-- `create_new_face_adjacent_to_edge` keeps the anchor of every inner face on the face -/
+theorem LInv.cnCore_ft {s : St} (hs : LInv s) (hft3 : s.FaceTriples) (e0 : Nat) (p : Pt) (d : Nat) (b_0 : e0 < s.nE)
+    (hfc : s.fc e0 = 0) :
+    (St.cnCore s e0 (s.nxt e0) (s.prv e0) (s.org e0) (s.org (s.rv e0)) (s.fc e0) p d).FaceTriples := by
+  have ev0 := hs.even
+  have E0 := hs.edge e0 b_0
+  have b_1 : s.nxt e0 < s.nE := E0.2.1
+  have b_2 : s.prv e0 < s.nE := E0.2.2.1
+  have E1 := hs.edge _ b_1
+  have E2 := hs.edge _ b_2
+  have a4 : s.nxt (s.prv e0) = e0 := E0.2.2.2.2.2.2.1
+  have a5 : s.prv (s.nxt e0) = e0 := E0.2.2.2.2.2.1
+  have f1 : s.fc (s.nxt e0) = 0 := by rw [E0.2.2.2.2.2.2.2.1]; exact hfc
+  have f2 : s.fc (s.prv e0) = 0 := by
+    have := E2.2.2.2.2.2.2.2.1; rw [a4, hfc] at this; exact this.symm
+  have l0 := hs.rv_lt b_0
+  have l1 := hs.rv_lt b_1
+  have l2 := hs.rv_lt b_2
+  have r0 := hs.rv_rv b_0
+  have rne := hs.rv_ne b_0
+  generalize hen : s.nxt e0 = en at *
+  generalize hep : s.prv e0 = ep at *
+  have d_0_1 : e0 ≠ en := by unfold EdgeOK dst at *; grind
+  have d_0_2 : e0 ≠ ep := by unfold EdgeOK dst at *; grind
+  have fb1 : s.fc e0 < s.nF := E0.2.2.2.1
+  have n_0 : ∀ k, s.nE + k ≠ e0 := by intro k; omega
+  have m_0 : s.nE ≠ e0 := by omega
+  have u_0 : ∀ k, e0 < s.nE + k := by intro k; omega
+  have n_1 : ∀ k, s.nE + k ≠ en := by intro k; omega
+  have m_1 : s.nE ≠ en := by omega
+  have u_1 : ∀ k, en < s.nE + k := by intro k; omega
+  have n_2 : ∀ k, s.nE + k ≠ ep := by intro k; omega
+  have m_2 : s.nE ≠ ep := by omega
+  have u_2 : ∀ k, ep < s.nE + k := by intro k; omega
+  have szE : (s.cnCore e0 en ep (s.org e0) (s.org (s.rv e0)) (s.fc e0) p d).nE = s.nE + 4 := by unfold St.cnCore; evw [b_0, b_1, b_2, d_0_1, d_0_1.symm, d_0_2, d_0_2.symm, n_0, (n_0 _).symm, m_0, m_0.symm, u_0, n_1, (n_1 _).symm, m_1, m_1.symm, u_1, n_2, (n_2 _).symm, m_2, m_2.symm, u_2]
+  have szF : (s.cnCore e0 en ep (s.org e0) (s.org (s.rv e0)) (s.fc e0) p d).nF = s.nF + 1 := by unfold St.cnCore; evw [b_0, b_1, b_2, d_0_1, d_0_1.symm, d_0_2, d_0_2.symm, n_0, (n_0 _).symm, m_0, m_0.symm, u_0, n_1, (n_1 _).symm, m_1, m_1.symm, u_1, n_2, (n_2 _).symm, m_2, m_2.symm, u_2]
+  apply hs.faceTriples_of_local hft3 [e0, en, ep] [ep, e0] [en, e0] [e0] [s.fc e0]
+  · omega
+  · intro x hx
+    simp only [List.mem_cons, List.not_mem_nil, or_false] at hx ⊢
+    rcases hx with h | h <;> subst h <;> simp
+  · intro x hx
+    simp only [List.mem_cons, List.not_mem_nil, or_false] at hx ⊢
+    rcases hx with h | h <;> subst h <;> simp
+  · intro x hx
+    simp only [List.mem_cons, List.not_mem_nil, or_false] at hx ⊢
+    subst hx; simp
+  · intro i hi hT
+    simp only [List.mem_cons, List.not_mem_nil, or_false, not_or] at hT
+    have hin : ∀ k, i ≠ s.nE + k := by intro k; omega
+    have hik : ∀ k, i < s.nE + k := by intro k; omega
+    have hi0 : i ≠ s.nE := by omega
+    unfold St.cnCore
+    evw [b_0, b_1, b_2, d_0_1, d_0_1.symm, d_0_2, d_0_2.symm, n_0, (n_0 _).symm, m_0, m_0.symm, u_0, n_1, (n_1 _).symm, m_1, m_1.symm, u_1, n_2, (n_2 _).symm, m_2, m_2.symm, u_2, hT, hin, hik, hi0, hi]
+  · intro i hi hT
+    simp only [List.mem_cons, List.not_mem_nil, or_false, not_or] at hT
+    have hin : ∀ k, i ≠ s.nE + k := by intro k; omega
+    have hik : ∀ k, i < s.nE + k := by intro k; omega
+    have hi0 : i ≠ s.nE := by omega
+    unfold St.cnCore
+    evw [b_0, b_1, b_2, d_0_1, d_0_1.symm, d_0_2, d_0_2.symm, n_0, (n_0 _).symm, m_0, m_0.symm, u_0, n_1, (n_1 _).symm, m_1, m_1.symm, u_1, n_2, (n_2 _).symm, m_2, m_2.symm, u_2, hT, hin, hik, hi0, hi]
+  · intro i hi hT
+    simp only [List.mem_cons, List.not_mem_nil, or_false, not_or] at hT
+    have hin : ∀ k, i ≠ s.nE + k := by intro k; omega
+    have hik : ∀ k, i < s.nE + k := by intro k; omega
+    have hi0 : i ≠ s.nE := by omega
+    unfold St.cnCore
+    evw [b_0, b_1, b_2, d_0_1, d_0_1.symm, d_0_2, d_0_2.symm, n_0, (n_0 _).symm, m_0, m_0.symm, u_0, n_1, (n_1 _).symm, m_1, m_1.symm, u_1, n_2, (n_2 _).symm, m_2, m_2.symm, u_2, hT, hin, hik, hi0, hi]
+  · intro f h0 hf hF
+    simp only [List.mem_cons, List.not_mem_nil, or_false, not_or] at hF
+    have hfn : ∀ k, f ≠ s.nF + k := by intro k; omega
+    have hf0 : f ≠ s.nF := by omega
+    have hfz : f ≠ 0 := by omega
+    unfold St.cnCore; evw [b_0, b_1, b_2, d_0_1, d_0_1.symm, d_0_2, d_0_2.symm, n_0, (n_0 _).symm, m_0, m_0.symm, u_0, n_1, (n_1 _).symm, m_1, m_1.symm, u_1, n_2, (n_2 _).symm, m_2, m_2.symm, u_2, hfn, hf0, hfz, hF] <;> grind
+  · intro g hg hfg hmem
+    simp only [List.mem_cons, List.not_mem_nil, or_false] at hmem
+    exact absurd (hmem.trans hfc) hfg
+  · intro x hx hc hfx
+    have hx' : x = e0 ∨ x = en ∨ x = ep ∨ x = s.nE ∨ x = s.nE + 1 ∨ x = s.nE + 2 ∨ x = s.nE + 3 := by
+      rcases hc with h | h
+      · simp only [List.mem_cons, List.not_mem_nil, or_false] at h <;> omega
+      · omega
+    unfold St.cnCore at hfx ⊢
+    unfold EdgeOK dst at *
+    have hq' : (ep = en) = (en = ep) := propext eq_comm
+    by_cases hq : en = ep <;>
+    rcases hx' with h | h | h | h | h | h | h <;> subst h
+    all_goals (revert hfx; evw [b_0, b_1, b_2, d_0_1, d_0_1.symm, d_0_2, d_0_2.symm, n_0, (n_0 _).symm, m_0, m_0.symm, u_0, n_1, (n_1 _).symm, m_1, m_1.symm, u_1, n_2, (n_2 _).symm, m_2, m_2.symm, u_2, hen, hep, a4, a5, hfc, f1, f2, fb1, hq', hq]; intro hfx; grind (splits := 40))
+
+set_option maxHeartbeats 4000000 in
+theorem LInv.cnCore_vb {s : St} (hs : LInv s) (hvb : s.VBound) (e0 : Nat) (p : Pt) (d : Nat) (b_0 : e0 < s.nE)
+    (hfc : s.fc e0 = 0) :
+    (St.cnCore s e0 (s.nxt e0) (s.prv e0) (s.org e0) (s.org (s.rv e0)) (s.fc e0) p d).VBound := by
+  have ev0 := hs.even
+  have E0 := hs.edge e0 b_0
+  have b_1 : s.nxt e0 < s.nE := E0.2.1
+  have b_2 : s.prv e0 < s.nE := E0.2.2.1
+  have E1 := hs.edge _ b_1
+  have E2 := hs.edge _ b_2
+  have a4 : s.nxt (s.prv e0) = e0 := E0.2.2.2.2.2.2.1
+  have a5 : s.prv (s.nxt e0) = e0 := E0.2.2.2.2.2.1
+  have f1 : s.fc (s.nxt e0) = 0 := by rw [E0.2.2.2.2.2.2.2.1]; exact hfc
+  have f2 : s.fc (s.prv e0) = 0 := by
+    have := E2.2.2.2.2.2.2.2.1; rw [a4, hfc] at this; exact this.symm
+  have l0 := hs.rv_lt b_0
+  have l1 := hs.rv_lt b_1
+  have l2 := hs.rv_lt b_2
+  have r0 := hs.rv_rv b_0
+  have rne := hs.rv_ne b_0
+  generalize hen : s.nxt e0 = en at *
+  generalize hep : s.prv e0 = ep at *
+  have d_0_1 : e0 ≠ en := by unfold EdgeOK dst at *; grind
+  have d_0_2 : e0 ≠ ep := by unfold EdgeOK dst at *; grind
+  have fb1 : s.fc e0 < s.nF := E0.2.2.2.1
+  have n_0 : ∀ k, s.nE + k ≠ e0 := by intro k; omega
+  have m_0 : s.nE ≠ e0 := by omega
+  have u_0 : ∀ k, e0 < s.nE + k := by intro k; omega
+  have n_1 : ∀ k, s.nE + k ≠ en := by intro k; omega
+  have m_1 : s.nE ≠ en := by omega
+  have u_1 : ∀ k, en < s.nE + k := by intro k; omega
+  have n_2 : ∀ k, s.nE + k ≠ ep := by intro k; omega
+  have m_2 : s.nE ≠ ep := by omega
+  have u_2 : ∀ k, ep < s.nE + k := by intro k; omega
+  have szE : (s.cnCore e0 en ep (s.org e0) (s.org (s.rv e0)) (s.fc e0) p d).nE = s.nE + 4 := by unfold St.cnCore; evw [b_0, b_1, b_2, d_0_1, d_0_1.symm, d_0_2, d_0_2.symm, n_0, (n_0 _).symm, m_0, m_0.symm, u_0, n_1, (n_1 _).symm, m_1, m_1.symm, u_1, n_2, (n_2 _).symm, m_2, m_2.symm, u_2]
+  unfold St.cnCore at szE ⊢
+  refine vbound_run s _ hvb (s.nE + 4) szE (by omega) ?_
+  intro i hi
+  simp only [List.mem_cons, List.not_mem_nil, or_false] at hi
+  rcases hi with rfl | rfl | rfl | rfl | rfl | rfl | rfl | rfl <;> simp only [Instr.argOK] <;> omega
+
 end St
 end Spade
